@@ -79,10 +79,26 @@ def gen_space(rng, kind, allow2d=True):
     return sp
 
 
-def gen_case(rng):
+# the amplitude code paths: (model, JAX kind, JAX renormalisation); every run covers all of them (round-robin), the rest is random
+STRATA = [("nonparam", "power", False), ("nonparam", "amplitude", True), ("matern", "power", True), ("matern", "amplitude", True),
+          ("matern", "power", False), ("matern", "amplitude", False), ("nonparam", "power", True), ("nonparam", "amplitude", False)]
+
+
+def gen_case(rng, stratum=None):
+    if stratum is not None:
+        c = gen_case(rng)
+        while c["kind"] != stratum[0]:
+            c = gen_case(rng)
+        c["re_kind"], c["renorm"] = stratum[1], stratum[2]
+        return c
     kind = "nonparam" if rng.random() < 0.65 else "matern"
-    nsp = 1 if rng.random() < 0.55 else 2
-    spaces = [gen_space(rng, kind, allow2d=(nsp == 1 or i == 0)) for i in range(nsp)]
+    u = rng.random()
+    nsp = 1 if u < 0.5 else (2 if u < 0.85 else 3)     # three sub-spaces: the product formulas beyond the documented pair
+    spaces = [gen_space(rng, kind, allow2d=(nsp == 1 or (nsp == 2 and i == 0))) for i in range(nsp)]
+    if nsp == 3:
+        for sp in spaces:
+            if sp["shape"][0] > 5:
+                sp["shape"] = [rng.choice([4, 5])]
     return dict(kind=kind, spaces=spaces, offset_mean=r2(rng, -1.0, 1.0), offset_std=[r2(rng, 0.1, 2.0), r2(rng, 0.05, 0.5)],
                 hartley=rng.choice(["non_canonical_hartley", "canonical_hartley"]),
                 re_kind=rng.choice(["power", "amplitude"]), renorm=rng.random() < 0.5, seed=rng.randrange(10 ** 6))
@@ -488,8 +504,9 @@ def hartley_kernel_check(ctx):
 def run(ctx):
     cases = load_corpus()
     hartley_kernel_check(ctx)
-    for _ in range(ctx.n(9, 160)):
-        cases.append(gen_case(ctx.rng))
+    off = ctx.rng.randrange(len(STRATA))
+    for i in range(ctx.n(9, 160)):
+        cases.append(gen_case(ctx.rng, STRATA[(i + off) % len(STRATA)] if i % 4 != 3 else None))
     reqs, metas = [], []
     for c in cases:
         ctx.stat("model:" + c["kind"])
